@@ -55,6 +55,8 @@ def _pred(key, want, desc, v):
     if key == "writer_prefix_any":
         ws = (v.get("observed") or {}).get("writers") or []
         return bool(ws) and all(any(w.startswith(p) for p in want) for w in ws)
+    if key == "member_in":
+        return (v.get("observed") or {}).get("member") in want
     if key == "member_is":
         return (v.get("observed") or {}).get("member") == want
     if key == "fixers_nonempty_subset_of":
